@@ -24,6 +24,9 @@ def plans(tier):
              depth=2),
         dict(fmt="tfrec", eps=2, letters=A(("root", "x", "multi"),
                                            ("train",)) + create, depth=2),
+        # sessions that write nothing, idle writers, untouched splits
+        dict(fmt="fb", eps=2, letters=A(("root", "x", "multi3", "empty"),
+                                        ("train", "test")), depth=3),
     ]
 
 
